@@ -138,6 +138,24 @@ def fasta_append_rules(ctx, R="R1"):
                 if isinstance(nxt, ast.AugAssign) and isinstance(nxt.op, ast.Add) and same_expr(nxt.target, "self.lines") and isinstance(nxt.value, ast.Name):
                     v = nxt.value.id
                     ok = same_expr(st.value.elts[0], "len(self.lines)") and same_expr(st.value.elts[1], f"len(self.lines) + len({v})")
+    # the same range measured around the append: `start = len(self.lines)`, `self.lines += new_lines` at once, and later
+    # `self._entries[header] = (start, len(self.lines))` with no other change of the lines in between
+    if not ok:
+        stores_ = [st for st in ast.walk(f) if isinstance(st, ast.Assign) and isinstance(st.targets[0], ast.Subscript) and same_expr(st.targets[0].value, "self._entries")
+                   and isinstance(st.value, ast.Tuple) and len(st.value.elts) == 2]
+        for blk in [b for node in ast.walk(f) for b in (getattr(node, "body", None), getattr(node, "orelse", None)) if isinstance(b, list)]:
+            for k, st in enumerate(blk[:-1]):
+                nxt = blk[k + 1]
+                if isinstance(st, ast.Assign) and len(st.targets) == 1 and isinstance(st.targets[0], ast.Name) and same_expr(st.value, "len(self.lines)") \
+                        and isinstance(nxt, ast.AugAssign) and isinstance(nxt.op, ast.Add) and same_expr(nxt.target, "self.lines"):
+                    s_ = st.targets[0].id
+                    later_writes = [w_ for w_ in ast.walk(f) if isinstance(w_, ast.stmt) and w_ is not nxt and getattr(w_, "lineno", 0) > nxt.lineno
+                                    and lines_writes(w_, {"self"})]
+                    for e_ in stores_:
+                        if e_.lineno > nxt.lineno and isinstance(e_.value.elts[0], ast.Name) and e_.value.elts[0].id == s_ \
+                                and same_expr(e_.value.elts[1], "len(self.lines)") and not [w_ for w_ in later_writes if w_.lineno < e_.lineno] \
+                                and sum(1 for x in ast.walk(f) if isinstance(x, ast.Name) and x.id == s_ and isinstance(x.ctx, ast.Store)) == 1:
+                            ok, n = True, 1
     # the ranges of the entries are line numbers: whatever changes the number of lines in front of an entry must index the file anew
     # (`self._find_entries()`); the only range written by hand is the one of an entry appended at the end
     ctx.need(n >= 1, "entry range recorded by FastaFile.__setitem__ for a new header")
